@@ -74,7 +74,7 @@ def cases_for_shape(N, W, tier, seed):
     full = 4 if tier == "thorough" else 3
     if big:
         ets = [tuple([0.25, 1.0, 4.0][i % 3] for i in range(n)), tuple([4.0] * (n // 2) + [0.25] * (n - n // 2))]
-    elif n > 6:
+    elif n > 6 or (n > 4 and tier == "quick"):
         ets = eig_tuples(n, (0.25, 1.0, 4.0), 0)
         ets = ets[::max(1, len(ets) // 12)][:12] if tier == "quick" else ets[::max(1, len(ets) // 40)][:40]
     else:
@@ -248,7 +248,8 @@ def work(task):
 
 def shapes(tier):
     if tier == "quick":
-        return [(N, W) for N in range(1, 5) for W in range(1, 5) if N * W <= 4]
+        # NW <= 4 in full; (2,3) and (3,2) on a reduced eigenvalue menu so that N>=2 with W>=3 is reached
+        return [(N, W) for N in range(1, 5) for W in range(1, 5) if N * W <= 4] + [(2, 3), (3, 2)]
     sh = [(N, W) for N in range(1, 13) for W in range(1, 13) if N * W <= 12]
     sh += [(6, 10), (10, 6), (4, 15), (2, 30), (1, 60)]
     return sh
@@ -271,7 +272,7 @@ def run(ctx):
     ctx.cov["shapes"] = [list(s) for s in shapes(ctx.tier)]
     ctx.cov["rule"] = (
         "S = Q diag(e) Q^T: every e in {0.25,1,4}^NW for NW<=3 (thorough <=4), every multiset ascending+descending "
-        "beyond, x {identity, Householder(1), seeded dense} bases x lambda {0,1e-3,0.11,0.5,1,5} floats, constant "
+        "beyond (12 evenly spaced ones for NW in {5,6} quick / NW>6), x {identity, Householder(1), seeded dense} bases x lambda {0,1e-3,0.11,0.5,1,5} floats, constant "
         "matrix, block-graded matrix, seeded matrix x step {rho=1} for all and {rho=0.1, rho=10, rho=1+residual "
         "balancing callback} for lambda in {0, 0.11, graded}; conditional-only families: rank-deficient "
         "e in {0,1,4}^NW, S scaled by 1e-3/1e3. Verdict: KKT certificate (slack 1.5) + Toeplitz spread + symmetry + "
